@@ -69,7 +69,7 @@ func rigidPlacement(rng *rand.Rand, extent float64) *placement {
 	case 1:
 		th = 1e-3 * rng.NormFloat64()
 	case 2:
-		th = -0.5037616150469717 // undoes the library's own fixed misalignment rotation
+		th = -0.5037616150469717 // twice the library's own internal frame angle away from its sweep axes
 	}
 	s := math.Exp(rng.NormFloat64() * 2)
 	t := 0.0
